@@ -33,6 +33,9 @@ EXTRA = {
     # wave 5
     'C01-w51': ['C06', 'C07'], 'C01-w52': ['C16'], 'C03-w52': ['C18'], 'C03-w53': ['C06'], 'C07-w52': ['C09'], 'C08-w53': ['C07'],
     'C09-w53': ['C12', 'C13'], 'C11-w52': ['C10'], 'C12-w53': ['C06'], 'C17-w53': ['C01'], 'C15-w52': ['C03'], 'C13-w52': ['C07'],
+    # wave 6
+    'C03-w62': ['C08'], 'C06-w61': ['C18'], 'C06-w62': ['C07'], 'C06-w63': ['C12'], 'C08-w61': ['C09'], 'C08-w62': ['C12'],
+    'C08-w63': ['C07', 'C06'], 'C17-w63': ['C01'], 'C05-w62': ['C04'], 'C07-w62': ['C09'],
 }
 
 
